@@ -177,6 +177,25 @@ func genC14Cases(c *orch.Ctx) []*c14Case {
 		}
 		cases = append(cases, &c14Case{Grammar: "annotations", Label: fmt.Sprintf("lead-lines-%d", k), Project: p, Argv: c14Commands[k%3]})
 	}
+	// verbs in odd spellings, non-ASCII identifiers next to annotations that match nothing
+	for k, verb := range []string{"get", "Get", "pOsT", "options", "HEAD", "Options", " GET", "GET ", "gét"} {
+		p := base()
+		cc := &p.Controllers[0]
+		t := synth.Prim("string")
+		cc.Methods = append(cc.Methods, synth.Method{Name: "OddVerb", Verb: verb, Route: "/oddverb", Ret: &t})
+		cases = append(cases, &c14Case{Grammar: "annotations", Label: fmt.Sprintf("verb-spelling-%q", verb), Project: p, Argv: c14Commands[k%3]})
+	}
+	for k, ident := range []string{"имя", "名前", "naïve", "x١", "ǅ", "π"} {
+		p := base()
+		cc := &p.Controllers[0]
+		t := synth.Prim("string")
+		m := synth.Method{Name: "Unicode", Verb: "GET", Route: "/unicode", Ret: &t, Params: []synth.Param{{GoName: ident, Type: synth.Prim("string"), In: "query", AnnName: "nomatch"}}}
+		if k%2 == 1 {
+			m.Params[0].AnnName = "" // well linked: must simply work
+		}
+		cc.Methods = append(cc.Methods, m)
+		cases = append(cases, &c14Case{Grammar: "annotations", Label: "non-ascii-parameter-" + ident, Project: p, Argv: c14Commands[k%3]})
+	}
 	mAnn, cAnn := annotationMatrix(c.Seed, !c.Quick())
 	for round := 0; round < scale; round++ {
 		methodAnns := badAnnotations
